@@ -30,6 +30,10 @@ func AddDeleteChildren(index configapi.Index, changeValues map[string]*configapi
 		// if this pathValue has to be deleted, then we need to search for all children of this pathValue
 		if changeValue.Deleted {
 			for _, value := range configStore {
+				if _, ok := changeValues[value.Path]; ok {
+					// the change itself says what becomes of this path (e.g. a value written beneath the deleted path)
+					continue
+				}
 				if value.Path != changeValue.Path && gnmiutils.IsPathOrDescendant(value.Path, changeValue.Path) {
 					updChangeValues[value.Path] = value
 					updChangeValues[value.Path].Index = index
